@@ -1,2 +1,4 @@
 import GlotaranModel.Proto
 import GlotaranModel.C19
+import GlotaranModel.LinAlg
+import GlotaranModel.C02
